@@ -81,7 +81,17 @@ def _declaration_reused():
     return m, [(0, None), (0, 6)], [20.0, 0.0], 0.0, 6.0
 
 
-SCENARIOS = {"declaration-list-used-twice": _declaration_reused, "states-declared-as-ODEVariable": _odevariable_states, "unlimited-state-before-limited": _unlimited_before_limited,
+def _magnitude_is_a_state():
+    """a transition whose size is another state (zero at the start, growing): the limits hold whatever the size has become"""
+    import pg
+    m = pg.model(state=[("X", (0, None)), ("Y", (0, None))], param=["k", "g"],
+                 event=[pg.Event(rate="g", transition_list=[pg.Transition(destination="Y", transition_type="B")]),
+                        pg.Event(rate="k", transition_list=[pg.Transition(origin="X", transition_type="D", magnitude="Y")])])
+    m.parameters = [("k", 1.0), ("g", 2.0)]
+    return m, [(0, None), (0, None)], [6.0, 0.0], 0.0, 6.0
+
+
+SCENARIOS = {"declaration-list-used-twice": _declaration_reused, "size-of-a-transition-is-a-state": _magnitude_is_a_state, "states-declared-as-ODEVariable": _odevariable_states, "unlimited-state-before-limited": _unlimited_before_limited,
              "all-states-added-after-construction": _all_states_added_later, "state-added-after-construction": _extended, "state-added-after-construction/upper": _extended_upper,
              "grid-before-initial-time": _late_start}
 
